@@ -936,6 +936,7 @@ def main(argv):
     ap.add_argument("--keep", action="store_true")
     ap.add_argument("--no-replay", action="store_true")
     ap.add_argument("--repo", default=os.environ.get("VERIF_REPO", "/repo"))
+    ap.add_argument("--show-replay", metavar="PATH", help="print a replay file and re-execute it natively on /repo's current tree")
     a = ap.parse_args(argv)
     os.makedirs(CACHE, exist_ok=True)
     if a.prop == "list":
@@ -949,6 +950,8 @@ def main(argv):
         return 0
     if a.prop == "setup":
         return setup(a.repo)
+    if a.show_replay:
+        return show_replay(a)
     special = os.path.join(CONTRACTS, a.prop, "special.py")
     if os.path.exists(special):
         import importlib.util
@@ -957,6 +960,42 @@ def main(argv):
         spec.loader.exec_module(mod)
         return mod.run(a, sys.modules[__name__])
     return check_property(a.prop, a.tier, a.repo, only=a.harness, keep=a.keep, do_replay=not a.no_replay)
+
+
+def show_replay(a):
+    """Re-execute a recorded counterexample / failing grid on the real code of the current tree.
+    exit 1 if it still fails (the violation reproduces), 0 if it no longer does, 2 if it cannot be run."""
+    rp = json.load(open(a.show_replay))
+    print(json.dumps({k: v for k, v in rp.items() if k not in ("native_replay", "verifier_output", "native_output")}, indent=1)[:6000])
+    name = (rp.get("harness") or "").split("::")[-1]
+    overlays, _ = load_property(a.prop)
+    hs = [h for o in overlays for h in o.harnesses if h.name == name]
+    if not hs:
+        log("replay: harness not found in the overlays (compile-time obligation or renamed harness)")
+        return 2
+    h = hs[0]
+    logdir = os.path.join(CACHE, "logs", f"{a.prop}-replay")
+    shutil.rmtree(logdir, ignore_errors=True)
+    os.makedirs(logdir)
+    try:
+        root, ws, _ = make_scratch(a.repo, a.prop, overlays, "-replay")
+    except Undecided as e:
+        log("replay:", e)
+        return 2
+    try:
+        if h.kind == "native-grid":
+            r = run_grids(ws, [h], logdir)[h.name]
+            log(f"replay: grid {h.name}: {r['status']} {r.get('reason', '')}")
+            return 1 if r["status"] == "refuted" else (0 if r["status"] == "pass" else 2)
+        vecs = [i["bytes"] for i in rp.get("inputs", [])]
+        if not vecs:
+            log("replay: the file carries no concrete inputs (no-failing-input-found)")
+            return 2
+        nat = native_replay(ws, h, vecs, logdir)
+        log("replay: native run:", json.dumps({k: nat[k] for k in ("ran", "rc", "panics", "assumption_violated")}))
+        return 1 if (nat["ran"] and nat["panics"] and not nat["assumption_violated"]) else 0
+    finally:
+        shutil.rmtree(root, ignore_errors=True)
 
 
 def setup(repo):
